@@ -32,10 +32,16 @@ def run(unit, em):
                             lam = strip(v['decl']['init'])
                             if lam is not None and lam['k'] == 'LambdaExpr':
                                 target = (n, lam)
+                elif c is not None and c['k'] in ('CallExpr', 'CXXMemberCallExpr') and c.get('inrepo') and len(c.get('args', [])) == 2:
+                    # the equality test is a (static) member function of the class
+                    g = unit.by_decl.get(c.get('cd'))
+                    if g is not None and g.body is not None and len(g.params) == 2:
+                        target = (n, {'k': 'FunctionBody', 'params': g.params, 'body': g.body, '_where': g})
         if target is None:
             em.unknown(fn, 'MacroStateCache::insert lookup', 'equality callable not resolved')
             continue
         ifn, lam = target
+        where = lam.get('_where') or lam
         ps = [p['d'] for p in lam.get('params', [])]
         size_ne = False
         incl = False
@@ -58,13 +64,21 @@ def run(unit, em):
                             c = strip(m['c'])
                             neg = c is not None and c['k'] == 'UnaryOperator' and c.get('op') == '!'
                             inner = strip(c['ch'][0]) if neg else None
-                            if inner is not None and inner['k'] == 'CXXMemberCallExpr' and method_name(inner) in ('count', 'contains') and \
+                            if c is not None and c['k'] in ('BinaryOperator', 'CXXOperatorCallExpr') and c.get('op') == '==':
+                                # `b.find(x) == b.end()` / `b.count(x) == 0`: x is not in b
+                                ops = c.get('ch') or c.get('args') or []
+                                for o_ in ops:
+                                    so = strip(o_)
+                                    if so is not None and so['k'] == 'CXXMemberCallExpr' and method_name(so) in ('find', 'count'):
+                                        inner = dict(so)
+                                        inner['_as_count'] = True
+                            if inner is not None and inner['k'] == 'CXXMemberCallExpr' and method_name(inner) in ('count', 'contains', 'find') and \
                                (strip(inner.get('obj')) or {}).get('d') in other and \
                                any(x['k'] == 'ReturnStmt' and (strip((x.get('ch') or [None])[0]) or {}).get('v') is False for x in walk(m.get('th'), lambdas=False)):
                                 incl = True
         if size_ne and incl:
-            em.ok(lam, 'MacroStateCache::insert equality', 'size() != size() rejects, then element-wise inclusion')
+            em.ok(where, 'MacroStateCache::insert equality', 'size() != size() rejects, then element-wise inclusion')
         elif not size_ne:
-            em.violation(lam, 'MacroStateCache::insert equality', 'the stored macro-state is substituted without rejecting different cardinalities (`a.size() != b.size()`): a strict sub/superset with the same key would match')
+            em.violation(where, 'MacroStateCache::insert equality', 'the stored macro-state is substituted without rejecting different cardinalities (`a.size() != b.size()`): a strict sub/superset with the same key would match')
         else:
-            em.violation(lam, 'MacroStateCache::insert equality', 'no element-wise inclusion test after the cardinality test')
+            em.violation(where, 'MacroStateCache::insert equality', 'no element-wise inclusion test after the cardinality test')
